@@ -189,7 +189,7 @@ func grazeFamily(c *vkit.Collector, rng *vkit.Rng, budget int) {
 					h := st.hmax * hf
 					lo, hi := math.Min(near, far), math.Max(near, far)
 					tr := rectRegion(rng, lo, hi, wrapLng(lngOf(st.p)-h), wrapLng(lngOf(st.p)+h), "graze-"+st.tag)
-					grazeCheck(c, rng, tr, st.cell, w, &covered, st.tag, st.west)
+					grazeCheck(c, rng, tr, st.cell, w, &covered, st.tag)
 				}
 			}
 			// a cap centred beyond p (outside the cell), reaching just past w
@@ -197,20 +197,13 @@ func grazeFamily(c *vkit.Collector, rng *vkit.Rng, budget int) {
 				cc := s2.PointFromLatLng(s2.LatLng{Lat: s1.Angle(math.Max(-1.55, math.Min(1.55, lp-sgn*rho))), Lng: s1.Angle(lngOf(st.p))})
 				rad := float64(cc.Distance(w)) * (1 + 1e-6)
 				tr := capRegion(rng, cc, "graze-"+st.tag, float64(s1.ChordAngleFromAngle(s1.Angle(rad))))
-				grazeCheck(c, rng, tr, st.cell, w, &covered, st.tag, st.west)
+				grazeCheck(c, rng, tr, st.cell, w, &covered, st.tag)
 			}
 		}
 	}
 }
 
-func limitFor(suffix string) int {
-	if suffix != "" {
-		return 1
-	}
-	return 3
-}
-
-// the known finding is reported once per kind, so that it cannot crowd out other violations
+// each kind is reported at most three times per run, so that one defect cannot crowd out the others
 var reported = map[string]int{}
 
 func violateLimited(c *vkit.Collector, kind, desc string, rep interface{}, limit int) {
@@ -220,24 +213,17 @@ func violateLimited(c *vkit.Collector, kind, desc string, rep interface{}, limit
 	}
 }
 
-func grazeCheck(c *vkit.Collector, rng *vkit.Rng, tr *testRegion, cell s2.Cell, w s2.Point, covered *int, tag string, west bool) {
+func grazeCheck(c *vkit.Collector, rng *vkit.Rng, tr *testRegion, cell s2.Cell, w s2.Point, covered *int, tag string) {
 	if tr.or == nil || !tr.or.strictIn(w) {
 		return
 	}
 	c.Class("family:graze-" + tr.kind)
 	ic := tr.r.IntersectsCell(cell)
 	c.Eval(fmt.Sprintf("graze %s %d", tr.name, uint64(cell.ID())), true)
-	// KNOWN FINDING (unchanged /repo): Rect.IntersectsCell builds the longitude span of a cell edge with
-	// IntervalFromEndpoints, which is the complement of the span for an edge that runs westward, and then
-	// skips every boundary test for that edge.  Violations at such edges get their own kind.
-	suffix := ""
-	if west && tr.kind == "rect" {
-		suffix = ":westward-cell-edge"
-	}
 	rep := map[string]interface{}{"site": tag, "region": tr.replay, "cell": fmt.Sprint(uint64(cell.ID())), "witness": []float64{w.X, w.Y, w.Z},
 		"witness_latlng_deg": []float64{latOf(w) * 180 / math.Pi, lngOf(w) * 180 / math.Pi}}
 	if !ic {
-		violateLimited(c, "IntersectsCell.unsafe:"+tr.kind+suffix, "IntersectsCell false although a witness point lies in the region and strictly inside the cell (boundary grazing a cell edge)", rep, limitFor(suffix))
+		violateLimited(c, "IntersectsCell.unsafe:"+tr.kind, "IntersectsCell false although a witness point lies in the region and strictly inside the cell (boundary grazing a cell edge)", rep, 3)
 	}
 	// every covering must contain the witness; a few per site keep the run short
 	if *covered%7 == 0 || !ic {
@@ -248,7 +234,7 @@ func grazeCheck(c *vkit.Collector, rng *vkit.Rng, tr *testRegion, cell s2.Cell, 
 				ids  []s2.CellID
 			}{{"Covering", rc.Covering(tr.r)}, {"FastCovering", rc.FastCovering(tr.r)}} {
 				if !covers(cv.ids, w, true) {
-					violateLimited(c, cv.name+".misses-point"+suffix, cv.name+" does not contain a witness point of the region ("+tr.kind+", boundary grazing a cell edge)", rep, limitFor(suffix))
+					violateLimited(c, cv.name+".misses-point", cv.name+" does not contain a witness point of the region ("+tr.kind+", boundary grazing a cell edge)", rep, 3)
 				}
 			}
 		}
